@@ -39,6 +39,31 @@ pub fn check_views(c: &ViewCase) -> CheckResult {
     if dt.get_data() != &c.words[..] {
         return Err("from_vec(w,h,v).get_data() != v".into());
     }
+    // from_vec with a vector of another length ("extend it to the given size (if needed)"): the pixels that fit
+    // are kept, missing ones are zero; with and without spare capacity
+    if n > 0 {
+        let k = (c.argb[1] as usize) % (n + 1);
+        let mut want_px = c.words[..k].to_vec();
+        want_px.resize(n, 0);
+        let exact: Vec<u32> = c.words[..k].to_vec().into_boxed_slice().into_vec();
+        let d1 = DrawTarget::from_vec(c.w, c.h, exact);
+        if d1.get_data() != &want_px[..] {
+            return Err(format!("from_vec({}, {}, v) with v.len() = {} (no spare capacity): the surface is not v followed by zeros", c.w, c.h, k));
+        }
+        let mut roomy = Vec::with_capacity(2 * n + 3);
+        roomy.extend_from_slice(&c.words[..k]);
+        let d2 = DrawTarget::from_vec(c.w, c.h, roomy);
+        if d2.into_vec() != want_px {
+            return Err(format!("from_vec({}, {}, v) with v.len() = {} (spare capacity): the surface is not v followed by zeros", c.w, c.h, k));
+        }
+        let mut long = c.words.clone();
+        long.extend_from_slice(&c.words[..k]);
+        let d3 = DrawTarget::from_vec(c.w, c.h, long);
+        if d3.get_data() != &c.words[..] {
+            return Err(format!("from_vec({}, {}, v) with v.len() = {} > w*h: the surface is not the first w*h words of v", c.w, c.h, n + k));
+        }
+        o.class_if(k < n && c.words[..k].iter().any(|p| *p != 0), "from_vec:short-nonzero");
+    }
     // byte view of words: B,G,R,A little endian
     let bv = dt.get_data_u8();
     if bv.len() != 4 * n {
@@ -212,10 +237,10 @@ fn png_strategy() -> BoxedStrategy<PngCase> {
 pub fn property(_ctx: &Ctx) -> Property {
     Property {
         id: "C19",
-        rule: "part views: sizes 0..9 x 0..9 with arbitrary pixel words, arbitrary bytes written through get_data_u8_mut, arbitrary a,r,g,b for to_u32; oracle = word/byte layout model (A<<24|R<<16|G<<8|B; bytes B,G,R,A), cross-view visibility and from_vec/from_backing/into_vec/into_inner round trips (owned and borrowed backings). part png: premultiplied words (alpha-0 pixels with arbitrary colour bytes) written by write_png and decoded with the png crate; oracle = un-premultiply model floor(c*255/a), alpha unchanged, row-major RGBA8. Non-trivial: >=2 distinct pixels, w != h and pairwise different channel bytes (so a channel swap or transposition is visible); distinct by hash of the case.",
+        rule: "part views: sizes 0..9 x 0..9 with arbitrary pixel words, arbitrary bytes written through get_data_u8_mut, arbitrary a,r,g,b for to_u32; oracle = word/byte layout model (A<<24|R<<16|G<<8|B; bytes B,G,R,A), cross-view visibility and from_vec/from_backing/into_vec/into_inner round trips (owned and borrowed backings; from_vec also with shorter vectors, with and without spare capacity, and longer ones: pixels that fit are kept, missing ones are zero). part png: premultiplied words (alpha-0 pixels with arbitrary colour bytes) written by write_png and decoded with the png crate; oracle = un-premultiply model floor(c*255/a), alpha unchanged, row-major RGBA8. Non-trivial: >=2 distinct pixels, w != h and pairwise different channel bytes (so a channel swap or transposition is visible); distinct by hash of the case.",
         assumptions: vec!["little-endian target", "the png crate's decoder is trusted"],
         parts: vec![part_outside_c07("views", 60_000, 600_000, view_strategy, check_views), part("png", 20_000, 200_000, png_strategy, check_png)],
-        min_class_fraction: vec![("png", "translucent", 0.5), ("png", "transparent-with-colour", 0.1)],
+        min_class_fraction: vec![("views", "from_vec:short-nonzero", 0.5), ("png", "translucent", 0.5), ("png", "transparent-with-colour", 0.1)],
         panic_is_violation: false,
     }
 }
